@@ -67,6 +67,9 @@ def analyse(parts, seps, lead, trail, ts, latent):
     info = {"text": text, "matched": False}
     fails = []
     try:
+        if len(text) % 3 == 0:
+            # an earlier call with the same text in another letter case must not influence this one
+            m.ctparse(text.swapcase(), ts, timeout=0, latent_time=latent)
         r = m.ctparse(text, ts, timeout=0, latent_time=latent)
     except Exception as e:
         return [("parse-raises(see C01):" + type(e).__name__, repr(e))], info
